@@ -1,6 +1,6 @@
 (* C10 — non-blocking and timed receives never block, miss a message, or poison (model: Timed.v). *)
 From Coq Require Import ZArith List Bool.
-From IPC Require Import Timed TimedProofs.
+From IPC Require Import U64 Params Timed TimedProofs ErrMap ErrMapProofs.
 Import ListNotations.
 Open Scope Z_scope.
 
@@ -73,3 +73,40 @@ Theorem C10_torn_calls : forall m torn q d,
   concat (repeat (snd (fst (recv_first m QMsg None false))) torn) ++ snd (fst (recv_first m q d false)).
 Proof. exact torn_calls. Qed.
 Print Assumptions C10_torn_calls.
+
+(* ---- a signal (with a handler) arriving while a timed receive waits: the wait ends with an I/O error, not with 'empty' ---- *)
+Theorem C10_sig_conservative : forall m q d f,
+  recv_first_sig m q d false f = (let '(o, cs, f') := recv_first m q d f in (SOut o, map SCall cs, f')).
+Proof. exact sig_conservative. Qed.
+Print Assumptions C10_sig_conservative.
+Theorem C10_sig_flag : forall ops, snd (run_sig false ops) = false.
+Proof. exact sig_flag_restored_run. Qed.
+Print Assumptions C10_sig_flag.
+Theorem C10_sig_interrupted_wait : forall us d f,
+  recv_first_sig (MTimeout us) QIdle d true f = (SInterrupted, [SPollIntr (poll_arg us)], f).
+Proof. exact sig_interrupted_wait. Qed.
+Print Assumptions C10_sig_interrupted_wait.
+Theorem C10_sig_empty_only_after_full_wait : forall us q d i f cs f',
+  recv_first_sig (MTimeout us) q d i f = (SOut OEmpty, cs, f') ->
+  cs = [SCall (CPoll (poll_arg us) false)] /\ q = QIdle /\ i = false /\ (d = None \/ d = Some QIdle).
+Proof. exact sig_empty_only_after_full_wait. Qed.
+Print Assumptions C10_sig_empty_only_after_full_wait.
+
+(* ---- what the calls REPORT: the conversions of the back end's error into the public result are GENERATED from the source
+   (gen/Params: the try_recv_class and recv_class definitions); 'empty' is said for EAGAIN and for nothing else, 'disconnected' for a closed channel
+   and for nothing else - so the public results are exactly the model's outcomes, and an interrupted wait is an I/O error ---- *)
+Theorem C10_empty_iff_eagain : forall code, try_recv_class_errno code = 0 <-> code = EAGAIN.
+Proof. exact try_empty_iff_eagain. Qed.
+Print Assumptions C10_empty_iff_eagain.
+Theorem C10_disconnected_iff_closed : forall e, class_try e = 1 <-> e = UClosed.
+Proof. exact try_disconnected_iff_closed. Qed.
+Print Assumptions C10_disconnected_iff_closed.
+Theorem C10_reported_faithful : forall o,
+  (reported_try o = Some 0 <-> o = SOut OEmpty) /\ (reported_try o = Some 1 <-> o = SOut ODisconnected) /\
+  (o = SInterrupted -> reported_try o = Some 2).
+Proof. exact reported_try_faithful. Qed.
+Print Assumptions C10_reported_faithful.
+Theorem C10_blocking_recv_reported : forall o,
+  (reported_recv o = Some 1 <-> o = SOut ODisconnected) /\ reported_recv o <> Some 0.
+Proof. exact reported_recv_faithful. Qed.
+Print Assumptions C10_blocking_recv_reported.
